@@ -204,3 +204,22 @@ claim("C07", "proof",
       "Apply_nevt's net effect (sums over channels) is covered per channel in C02 only. A1.",
       "deductive: symbolic interpretation of clang AST with loop invariants, callee contracts and ghost functions + SMT/rational-function identities; sanitizer replay battery",
       "DESIGN.md 3/C07")
+
+claim("C02", "proof",
+      "Per-function contracts on the real C++ (clang-AST interpreter), from which conservation follows by three finite-sum lemmas: "
+      "Gillespie ApplyDiffusion keeps every species' column sum (ghost column sum, point-update lemma instantiated at both stores) "
+      "and ApplyReaction adds exactly sto[s,r] to every non-chemostated species of one cell and nothing else; tau-leap Apply_nevt "
+      "without reactions keeps every non-chemostated species' column sum (loop invariants through its five loops) and its "
+      "reaction statement adds sto[j*R+r] x the one count of (cell, reaction) to species j; Euler DiffusionRateDifference = own "
+      "outgoing flux minus the neighbour's flux through the same interface (opposite direction slot on grids, in-constant on "
+      "graphs), Compute_dxdt stores at every (cell, species) 0 if chemostated, else sum_r sto[s,r] rate(cell,r) - sum over existing "
+      "interfaces of that difference (Skolem pointwise invariants with ghost partial sums, quantified invariant for the local rate "
+      "vector), Apply_dxdt adds dxdt x dt entry-wise. Bounded stand-ins on the engine built from the working tree: pairing of "
+      "directed interfaces (grids <= 4x4x3 x 8 boundary combinations; 6 multigraphs with self loops, parallel edges, zero-diffusivity "
+      "environment, heterogeneous volumes: slots point at each other and carry swapped in/out constants, bit-identical) and "
+      "2000-step conservation runs of A <-> B with diffusion for the three engines.",
+      "The lemmas L-sum, L-lin, L-pairing (algebra of finite sums) are stated in DESIGN.md, not machine-checked. The pairing is a "
+      "bounded stand-in (not proved for all shapes/graphs). 'Every recorded sample' follows with C09 (a record is a copy of the "
+      "state). Deterministic engine: to rounding (A1 treats doubles as reals).",
+      "deductive: symbolic interpretation of clang AST with loop invariants, ghost sums and callee contracts + SMT; bounded stand-in for interface pairing; sanitizer replay battery",
+      "DESIGN.md 3/C02")
